@@ -3,6 +3,7 @@ package props
 import (
 	"fmt"
 	"strings"
+	"sync"
 	"testing"
 
 	lib "github.com/corazawaf/libinjection-go"
@@ -166,6 +167,104 @@ func fiveTokenPatternInputs() []string {
 	return out
 }
 
+// stableAtoms: tokens that survive folding next to most neighbours, used to put a construct
+// at an exact position of the five-token window
+var stableAtoms = []string{"1", "foo", "'a'", "select", "union", ",", "(", ")", ";", "="}
+
+// sqlBoundaryInputs: inputs aimed at exact positions and lengths the algorithm is
+// sensitive to - the fifth/sixth token slot, the 31/32-byte token clip, merged phrases
+// of 30..33 bytes, multi-byte characters across the clip, a byte-order mark at offset 0.
+var (
+	sqlBoundaryOnce sync.Once
+	sqlBoundaryVal  []string
+)
+
+func sqlBoundaryInputs() []string {
+	sqlBoundaryOnce.Do(func() {
+		seen := map[string]bool{}
+		add := func(s string) {
+			if !seen[s] {
+				seen[s] = true
+				sqlBoundaryVal = append(sqlBoundaryVal, s)
+			}
+		}
+		// (a) k stable tokens, then a construct whose handling depends on its slot
+		slotted := []string{"{ ``", "{``", "{`", "{ `` 1", "{ foo", "order by 1", "group by 1", "waitfor delay '0:0:5'", "union all select 1", "not in (1)", "is not null", "natural join t", "into outfile 'x'",
+			"natural right outer join t", "in (1)", "like (1)", "user()", "\\ * 1", "::int", "collate x_y", "/*c*/", "--x", "``", "+ 1", "- - 1", "not not 1"}
+		var rec func(prefix []string, depth int)
+		rec = func(prefix []string, depth int) {
+			pre := strings.Join(prefix, " ")
+			for ci, c := range slotted {
+				if depth == 5 && ci >= 8 {
+					break // behind five tokens only the constructs that matter in the look-ahead slot
+				}
+				if pre == "" {
+					add(c)
+				} else {
+					add(pre + " " + c)
+				}
+			}
+			if depth == 5 {
+				return
+			}
+			for _, a := range stableAtoms {
+				rec(append(prefix, a), depth+1)
+			}
+		}
+		rec(nil, 0)
+		// (b) two adjacent words / word+keyword of every length pair around the clip
+		for a := 1; a <= 36; a++ {
+			for b := 0; b <= 36; b++ {
+				add(strings.Repeat("a", a) + " " + strings.Repeat("b", b))
+				if a+b >= 26 && a+b <= 36 {
+					add("1 union select " + strings.Repeat("a", a) + " " + strings.Repeat("b", b) + " from t")
+					add(strings.Repeat("a", a) + " ``" + strings.Repeat("b", b))
+				}
+			}
+		}
+		for n := 20; n <= 70; n++ {
+			w := strings.Repeat("a", n)
+			for _, kwd := range []string{"limit", "or", "union", "select", "having", "and", "mod"} {
+				add(w + "_" + kwd + " 25")
+				add(w + kwd + " 25")
+				add("x " + w + "." + kwd + " 1")
+				add(w[:n/2] + "." + kwd + "`" + w[n/2:] + "` 1")
+				add("1 union select`" + w + "`from`" + w + "`")
+				add("1 " + kwd + "." + w)
+			}
+			// (c) multi-byte characters across the 31-byte clip, in every token kind
+			for _, mb := range []string{"\xc3\xa9", "\xe2\x82\xac", "\xf0\x9f\x98\x80", "\xe9"} {
+				if n <= 40 {
+					add("select " + w + mb + "tude from t")
+					add("'" + w + mb + "' or 1=1")
+					add("/*" + w + mb + "*/ 1")
+					add("@" + w + mb + " = 1")
+					add("`" + w + mb + "` = 1")
+				}
+			}
+			// (d) a candidate closing quote beyond the clip, with backslash runs in front of it
+			for _, q := range []string{"'", "\"", "`"} {
+				for _, bs := range []string{"", "\\", "\\\\", "\\\\\\"} {
+					add(q + w + bs + q + " union select 1 -- " + q + ", 2")
+					add(w + bs + q + " or 1=1 -- ")
+					if n >= 28 && n <= 34 {
+						add(w[:n-2] + "\\" + "bb" + q + " or 1=1 -- ")
+					}
+				}
+			}
+		}
+		// (e) byte-order mark and alias runes in front of fixtures
+		for i, f := range corp().SQL {
+			if i%4 == 0 {
+				add(gen.BOM + f)
+				add(gen.BOM + gen.BOM + f)
+				add("\xe9t\xe9' " + f)
+			}
+		}
+	})
+	return sqlBoundaryVal
+}
+
 func sqlCase(in string) ev.Case { return ev.Case{Kind: "diff", In: in} }
 
 // sqlTruncations: every prefix of every literal form and of every corpus entry (G4).
@@ -266,6 +365,15 @@ func TestC06(t *testing.T) {
 			}
 			judge(w, s)
 		}
+	})
+
+	bnd := sqlBoundaryInputs()
+	p = c.rec.NewPart("boundary_inputs", "slot-dependent constructs behind 0..5 stable tokens; word pairs of every length pair around the 31/32-byte clip; long words ending in / containing keywords; multi-byte characters across the clip; closing quotes beyond the clip behind backslash runs; BOM-prefixed fixtures", false, true, "")
+	c.ParRange(p, int64(len(bnd)), func(w *Worker, i int64) {
+		if sampled(bnd[i], 7) {
+			ruleCoverage(w.l, bnd[i])
+		}
+		judge(w, bnd[i])
 	})
 
 	// truncations
